@@ -360,6 +360,12 @@ where
             return Err(SendError::from_remote_send_error(err.clone(), value));
         }
 
+        // A receiver that is known to be closed or dropped accepts no new values,
+        // even while the reference to the queue has not been released yet.
+        if self.closed_rx.borrow().is_some() {
+            return Err(self.queue_gone(value));
+        }
+
         match self.tx.upgrade() {
             Some(tx) => {
                 let (req, sent) = send_req(Ok(value));
@@ -393,6 +399,12 @@ where
     pub fn try_send(&self, value: T) -> Result<Sending<T>, TrySendError<T>> {
         if let Some(err) = self.remote_send_err_rx.borrow().as_ref() {
             return Err(TrySendError::from_remote_send_error(err.clone(), value));
+        }
+
+        // A receiver that is known to be closed or dropped accepts no new values,
+        // even while the reference to the queue has not been released yet.
+        if self.closed_rx.borrow().is_some() {
+            return Err(self.queue_gone(value).into());
         }
 
         match self.tx.upgrade() {
@@ -437,6 +449,12 @@ where
             return Err(SendError::from_remote_send_error(err.clone(), ()));
         }
 
+        // A receiver that is known to be closed or dropped accepts no new values,
+        // even while the reference to the queue has not been released yet.
+        if self.closed_rx.borrow().is_some() {
+            return Err(self.queue_gone(()));
+        }
+
         match self.tx.upgrade() {
             Some(tx) => {
                 let tx = (*tx).clone();
@@ -460,6 +478,12 @@ where
     pub fn try_reserve(&self) -> Result<Permit<T>, TrySendError<()>> {
         if let Some(err) = self.remote_send_err_rx.borrow().as_ref() {
             return Err(TrySendError::from_remote_send_error(err.clone(), ()));
+        }
+
+        // A receiver that is known to be closed or dropped accepts no new values,
+        // even while the reference to the queue has not been released yet.
+        if self.closed_rx.borrow().is_some() {
+            return Err(self.queue_gone(()).into());
         }
 
         match self.tx.upgrade() {
